@@ -193,4 +193,26 @@ theorem C38_parse_idempotent (pairs : Table) :
 example : parseTable underComp [("/mnt".toList, "cifs".toList), ("/mnt/local".toList, "ext4".toList), ("/home".toList, "ext4".toList)]
     = [("/mnt/local".toList, "ext4".toList), ("/mnt".toList, "cifs".toList)] := by decide
 
+/-! ### `on_same_mount` is an equivalence on paths, and agrees with the reference mount -/
+
+theorem C38_same_mount_equiv (tbl : Table) :
+    (∀ p, onSameMount getMountComp tbl p p = true)
+    ∧ (∀ p q, onSameMount getMountComp tbl p q = onSameMount getMountComp tbl q p)
+    ∧ (∀ p q r, onSameMount getMountComp tbl p q = true → onSameMount getMountComp tbl q r = true →
+        onSameMount getMountComp tbl p r = true) := by
+  refine ⟨fun p => by simp [onSameMount], fun p q => ?_, fun p q r h1 h2 => ?_⟩
+  · unfold onSameMount
+    exact Bool.eq_iff_iff.mpr ⟨fun h => by rw [beq_iff_eq] at h ⊢; exact h.symm, fun h => by rw [beq_iff_eq] at h ⊢; exact h.symm⟩
+  · unfold onSameMount at *
+    rw [beq_iff_eq] at *
+    exact h1.trans h2
+
+/-- two paths are reported on the same mount exactly when their longest component-prefix mount points
+    (the property's reference, unique up to spelling by `C38_comp_longest`) have the same components -/
+theorem C38_same_mount_ref (tbl : Table) (p q : Str) (h : TableOK tbl) :
+    ∃ rp rq, IsLongestCompPrefix tbl p rp ∧ IsLongestCompPrefix tbl q rq ∧
+      (onSameMount getMountComp tbl p q = true ↔ comps rp.1 = comps rq.1) :=
+  ⟨getMountComp tbl p, getMountComp tbl q, C38_comp_longest tbl p h, C38_comp_longest tbl q h,
+    by unfold onSameMount; exact beq_iff_eq⟩
+
 end PydraModel.Mount
